@@ -43,9 +43,10 @@ class Prop(Check):
         "Obj.C06_nesting",
         "Obj.C06_siblings_ordered",
         "Obj.C06_location",
+        "Obj.C06_location_nchar",
     ]
     DRIVER = "Drivers/Obj.lean"
-    QUICK_CASES = 450
+    QUICK_CASES = 350
     THOROUGH_CASES = 14000
     RULE = ("random grammar + derived model rendered with a random layout (whitespace incl. \\r\\n and bare \\r, line / "
             "block comments, glued tokens, non-ASCII names), from string or file; plus 'mini' texts over {a,b,space,\\n,\\r}; "
